@@ -108,7 +108,7 @@ def family(pid, tier, seed):
             GG.random_inputs(g, rng, rnd, 8, seen)
             gs.append(g)
         gs += curated_c11(rng)
-        gs += [g for g in curated_core(rng) if g["id"] == "t3"]
+        gs += [g for g in curated_core(rng) if g["id"] in ("t3", "t4")]
     elif pid == "C13":
         n, exh, rnd = (24, 3, 60) if quick else (100, 3, 200)
         for i in range(n):
@@ -128,6 +128,15 @@ def family(pid, tier, seed):
                         ks=(0, 1, 2, 3, 4, -1))
         seen = set()
         for s_ in ("a b )", "a b (", "a b ) a b (", "a b ( a b )", "a b", "a b ) a b"):
+            GG.add_input(g, s_, seen)
+        gs.append(g)
+        # an earlier alternative matches beyond the lookahead and then fails in the conversion of its capture
+        pn = lambda f, p_: cap(f, "node", {"op": "prod", "p": p_})
+        g = mk_grammar("m3", [("P0", {"op": "grp", "mode": "plus", "kid": {"op": "grp", "mode": "once", "kid": {"op": "alt", "kids": [pn("A", "P1"), pn("B", "P2")]}}}, [F("A", "node", "P1"), F("B", "node", "P2")]),
+                              ("P1", seq(GG.lit("("), cap("N", "int8", GG.ref("Int"))), [F("N", "int8")]),
+                              ("P2", seq(GG.lit("("), cap("W", "string", GG.ref("Int"))), [F("W", "string")])], ks=(0, 1, 2, 3, -1))
+        seen = set()
+        for s_ in ("( 300 ( 7", "( 7 ( 300", "( 300", "( 7", "( 128 ( 127 ( 300 ( 9"):
             GG.add_input(g, s_, seen)
         gs.append(g)
         for gid, first in (("m0", seq(GG.ref("Comment"), node("N"))), ("m1", seq(GG.ref("Comment"), GG.ref("Comment"), node("N")))):
